@@ -190,6 +190,43 @@ theorem cs_roots (a b lam ν s : K) (h2 : (2 : K) ≠ 0) (hν : ν ≠ 0) (hs : 
     have := (mul_eq_zero.mp h0).resolve_left h4ν
     linear_combination this
 
+/-- the second root as the code computes it since 0117f45 (product of the roots, no cancellation):
+    `m_sigmar + (2 σi²) ν / (1 + sqrt_disc) = root_part1 − root_part2` whenever `1 + s ≠ 0` -/
+theorem cs_root2_stable (a b ν s : K) (h2 : (2 : K) ≠ 0) (hν : ν ≠ 0) (hs : s * s = 1 - 4 * b ^ 2 * ν ^ 2)
+    (h1s : 1 + s ≠ 0) :
+    a + (2 * b * b) * ν / (1 + s) = a + 1 / (2 * ν) - s / (2 * ν) := by
+  have h2ν : 2 * ν ≠ 0 := mul_ne_zero h2 hν
+  have key : (2 * b * b) * ν / (1 + s) = (1 - s) / (2 * ν) := by
+    rw [div_eq_div_iff h1s h2ν]
+    linear_combination (1 : K) * hs
+  rw [key]
+  field_simp
+  ring
+
+/-- the two solutions of the quadratic in the form the code computes them since 0117f45:
+    `root1 = root_part1 + root_part2`, `root2 = m_sigmar + (2 σi²) ν / (1 + sqrt_disc)` -/
+theorem cs_roots_stable (a b lam ν s : K) (h2 : (2 : K) ≠ 0) (hν : ν ≠ 0) (hs : s * s = 1 - 4 * b ^ 2 * ν ^ 2)
+    (h1s : 1 + s ≠ 0) :
+    ν * ((lam - a) ^ 2 + b ^ 2) = lam - a ↔
+      lam = a + 1 / (2 * ν) + s / (2 * ν) ∨ lam = a + (2 * b * b) * ν / (1 + s) := by
+  rw [cs_root2_stable a b ν s h2 hν hs h1s]
+  exact cs_roots a b lam ν s h2 hν hs
+
+/-- `ν = 0` (the eigenvalue AT `Re σ`, the clause finding C02-resigma-cancellation violated): the code's `root2` is `Re σ` EXACTLY —
+    no division by `ν` is left in it — and `Re σ` is the one and only solution of the quadratic for `ν = 0` -/
+theorem cs_root2_nu_zero (a b lam s : K) :
+    a + (2 * b * b) * 0 / (1 + s) = a ∧ ((0 : K) * ((lam - a) ^ 2 + b ^ 2) = lam - a ↔ lam = a) := by
+  refine ⟨by simp, ?_⟩
+  rw [zero_mul]
+  constructor
+  · intro h; exact (sub_eq_zero.mp h.symm)
+  · intro h; rw [h, sub_self]
+
+/-- Vieta with the stable second root: `(root1 − a)(root2 − a) = b²` -/
+theorem cs_roots_product_stable (b ν s : K) (h2 : (2 : K) ≠ 0) (hν : ν ≠ 0) (h1s : 1 + s ≠ 0) :
+    (1 / (2 * ν) + s / (2 * ν)) * ((2 * b * b) * ν / (1 + s)) = b ^ 2 := by
+  field_simp
+
 /-- Vieta for the two candidates `t₁, t₂` (`t = λ − a`): `t₁ t₂ = b²`, `t₁ + t₂ = 1/ν` -/
 theorem cs_roots_product (b ν s : K) (h2 : (2 : K) ≠ 0) (hν : ν ≠ 0) (hs : s * s = 1 - 4 * b ^ 2 * ν ^ 2) :
     (1 / (2 * ν) + s / (2 * ν)) * (1 / (2 * ν) - s / (2 * ν)) = b ^ 2 ∧
